@@ -376,6 +376,44 @@ def crosscheck_mirrors(chk: Check):
     return n
 
 
+def b2_real_runs(chk: Check, pid: str):
+    """B2: real end-to-end runs (real physics) recorded by external wrappers and validated in one batch by TLC (SystemTrace.tla)."""
+    from . import corpus  # noqa: PLC0415
+
+    if pid not in ("C01", "C02", "C05", "C12", "C20"):
+        return
+    runs = corpus.corpus(tier(), chk.seed)
+    verdicts, res = corpus.validate(runs)
+    chk.add_tlc(res)
+    judged = skipped_nan = 0
+    kinds = {}
+    for i, r in enumerate(runs, start=1):
+        d = r["desc"]
+        if d.get("harness_exception"):
+            raise MachineryError(f"corpus run {d.get('id')} failed in the harness: {d['harness_exception']}")
+        if d.get("nan_in_eft"):
+            skipped_nan += 1      # overlapping peak windows -> log of a negative time: the tool's temperatures are NaN (observation F19); not judged
+            continue
+        judged += 1
+        out = next((e for e in r["events"] if e["e"] == "Outcome"), {"kind": "none"})
+        kinds[(d["method"], out["kind"])] = kinds.get((d["method"], out["kind"]), 0) + 1
+        for clause in sorted(verdicts[i]):
+            if clause == "known:F16":
+                if pid == "C02":
+                    chk.violation("F16 on a real run", None, known_key="F16")
+            elif clause.startswith(pid + ".") or clause.startswith("trace."):
+                chk.violation(f"{pid}: real {d['method']} run (pipe {d['pipe']}, flow {d['flow']}, regime {d['regime']}, {d['months']} months, seed {d['seed']}): {clause}",
+                              {"scenario": d, "failed": sorted(verdicts[i]), "events": r["events"][:60]})
+    chk.traces += judged
+    chk.note("b2_real_runs_validated", judged)
+    chk.note("b2_real_runs_not_judged_nan_temperatures", skipped_nan)
+    chk.note("b2_outcomes", {f"{k[0]}:{k[1]}": v for k, v in sorted(kinds.items())})
+    if judged < 12:
+        raise MachineryError(f"only {judged} real runs could be judged")
+    ev = next(r for r in runs if not r["desc"].get("nan_in_eft"))
+    chk.sample({"real_run": ev["desc"], "events": [{k: v for k, v in e.items()} for e in ev["events"][:5]]})
+
+
 def run(pid: str) -> int:
     chk = Check(pid)
     invs = INVS[pid] + (["LogRowConsistent"] if pid == "C12" else [])
@@ -395,6 +433,7 @@ def run(pid: str) -> int:
     total, drift, viol = generate_and_replay(chk, invs)
     for v in viol[:10]:
         chk.violation(f"{pid}: real code violates {v['false_invariants'] or v['mismatch'][:1]} on TLC behaviour (mode {v['mode']}, cfg {v['cfg']})", v)
+    b2_real_runs(chk, pid)
     chk.note("conformance_drift", len(drift))
     if drift:
         chk.note("conformance_drift_sample", drift[0]["mismatch"][:3])
